@@ -96,8 +96,32 @@ pub fn un_event(asm: &Asm, mach: &mut Mach, op: &'static str, w: u8, fin: u16, v
     json!({"ev":"un8","op":op,"w":w,"fin":fin,"cin":fin & 1,"as":vals,"res":res,"fl":fl,"fb":fb,"line":line})
 }
 
+/// cache of assembled `mn dst, n` lines for n = 0..255 (the assembler is run once per line)
+#[derive(Default)]
+pub struct ShiftLines {
+    map: std::collections::HashMap<(String, u8, String), Vec<String>>,
+}
+
+impl ShiftLines {
+    fn get(&mut self, asm: &Asm, op: &'static str, mn: &'static str, w: u8, d: &'static str) -> &Vec<String> {
+        let key = (mn.to_string(), w, d.to_string());
+        if !self.map.contains_key(&key) {
+            let sp = Spelling::default();
+            let dst = if w == 8 { Opnd::Reg8(d) } else { Opnd::Reg16(d) };
+            let mut v = Vec::new();
+            for n in 0..256u32 {
+                let ins = Ins::Shift { op, mn, w, dst: dst.clone(), cnt: Cnt::Imm(n) };
+                let (a, idx, _) = assemble_ins(asm, &ins, &sp).expect("imm form must assemble");
+                v.push(a.out.code[idx].clone());
+            }
+            self.map.insert(key.clone(), v);
+        }
+        self.map.get(&key).unwrap()
+    }
+}
+
 /// shift/rotate of value v by each count in ns (immediate counts assembled from source, or CL)
-pub fn shift_event(asm: &Asm, mach: &mut Mach, op: &'static str, mn: &'static str, w: u8, v: u16, fin: u16, ns: &[u16], use_cl: bool, variant: usize) -> Value {
+pub fn shift_event(asm: &Asm, mach: &mut Mach, cache: &mut ShiftLines, op: &'static str, mn: &'static str, w: u8, v: u16, fin: u16, ns: &[u16], use_cl: bool, variant: usize) -> Value {
     // destination must not be CL/CX when the count is in CL
     let d8 = ["al", "bh", "dl", "ah", "bl", "dh"][variant % 6];
     let d16 = ["ax", "bx", "dx", "si", "di", "bp"][variant % 6];
@@ -109,39 +133,31 @@ pub fn shift_event(asm: &Asm, mach: &mut Mach, op: &'static str, mn: &'static st
     let mut fl = Vec::new();
     let mut panic = Vec::new();
     let mut fb: Vec<usize> = Vec::new();
-    let mut cl_line: Option<(Assembled, usize, String)> = None;
-    if use_cl {
+    let mut ictx = emulator_8086_lib::InterpreterContext::default();
+    let cl_line: String = if use_cl {
         let ins = Ins::Shift { op, mn, w, dst: dst.clone(), cnt: Cnt::Cl };
         let (a, idx, _) = assemble_ins(asm, &ins, &sp).expect("cl form must assemble");
-        let line = a.out.code[idx].clone();
-        cl_line = Some((a, idx, line));
-    }
+        a.out.code[idx].clone()
+    } else {
+        String::new()
+    };
+    let lines: Vec<String> = if use_cl { Vec::new() } else { cache.get(asm, op, mn, w, d).clone() };
     let mut line0 = String::new();
     for (k, n) in ns.iter().enumerate() {
         let mut r = base;
         r.set(d, v);
-        let (out, after, before);
         if use_cl {
             r.set("cl", *n);
-            write_regs(&mut mach.vm, &r);
-            before = read_regs(&mach.vm);
-            mach.vm.arch.flag = fin;
-            let (a, idx, line) = cl_line.as_mut().unwrap();
-            out = mach.step_fast(*idx, &mut a.ictx, line).0;
-            line0 = line.clone();
-        } else {
-            let ins = Ins::Shift { op, mn, w, dst: dst.clone(), cnt: Cnt::Imm(*n as u32) };
-            let (mut a, idx, _) = assemble_ins(asm, &ins, &sp).expect("imm form must assemble");
-            let line = a.out.code[idx].clone();
-            write_regs(&mut mach.vm, &r);
-            before = read_regs(&mach.vm);
-            mach.vm.arch.flag = fin;
-            out = mach.step_fast(idx, &mut a.ictx, &line).0;
-            if k == 0 {
-                line0 = line;
-            }
         }
-        after = read_regs(&mach.vm);
+        let line: &str = if use_cl { &cl_line } else { &lines[*n as usize] };
+        write_regs(&mut mach.vm, &r);
+        let before = read_regs(&mach.vm);
+        mach.vm.arch.flag = fin;
+        let out = mach.step_fast(0, &mut ictx, line).0;
+        if k == 0 {
+            line0 = line.to_string();
+        }
+        let after = read_regs(&mach.vm);
         res.push(after.get(d));
         fl.push(mach.vm.arch.flag);
         panic.push(if out == "PANIC" { 1 } else { 0 });
@@ -159,7 +175,7 @@ pub fn shift_event(asm: &Asm, mach: &mut Mach, op: &'static str, mn: &'static st
 
 /// mul/imul/div/idiv with AX, DX fixed and the operand ranging over vs (operand in a register)
 pub fn muldiv_event(asm: &Asm, mach: &mut Mach, op: &'static str, w: u8, ax: u16, dx: u16, fin: u16, vs: &[u16], variant: usize) -> Value {
-    let s8 = ["bl", "ch", "dh", "cl", "bh"][variant % 5];
+    let s8 = ["bl", "ch", "bh", "cl", "bl"][variant % 5];
     let s16 = ["bx", "cx", "si", "di", "bp"][variant % 5];
     let s = if w == 8 { s8 } else { s16 };
     let opnd = if w == 8 { Opnd::Reg8(s) } else { Opnd::Reg16(s) };
